@@ -12,24 +12,10 @@ Definition diag_top (s : schema) : list problem :=
 Definition defects_of (tbl : list (str * schema)) : list (str * Z * str) :=
   flat_map (fun ns => map (fun p => (fst ns, fst p, snd p)) (diag_top (snd ns))) tbl.
 
-(* the static defects present in the repository today (known findings F50 = kind 1, F51 = kind 7) *)
+(* the static defects present in the repository today (known finding F51 = kind 7).  Kind 1 (a field skipped
+   when empty without a missing-value, F50) no longer occurs: repaired, `#[serde(default)]` on the 15 fields *)
 Definition known_defects : list (str * Z * str) := [
-  (k "quic::connectivity::ConnectionState", 7, k "closed");
-  (k "quic::transport::VersionInformation", 1, k "server_versions");
-  (k "quic::transport::VersionInformation", 1, k "client_versions");
-  (k "quic::transport::PacketSent", 1, k "supported_versions");
-  (k "quic::transport::PacketReceived", 1, k "supported_versions");
-  (k "quic::transport::PacketsAcked", 1, k "packet_nubers");
-  (k "quic::transport::UdpDatagramsSent", 1, k "raw");
-  (k "quic::transport::UdpDatagramsSent", 1, k "ecn");
-  (k "quic::transport::UdpDatagramsSent", 1, k "datagram_ids");
-  (k "quic::transport::UdpDatagramsReceived", 1, k "raw");
-  (k "quic::transport::UdpDatagramsReceived", 1, k "ecn");
-  (k "quic::transport::UdpDatagramsReceived", 1, k "datagram_ids");
-  (k "legacy::quic::TransportVersionInformation", 1, k "server_versions");
-  (k "legacy::quic::TransportVersionInformation", 1, k "client_versions");
-  (k "legacy::quic::TransportPacketReceived", 1, k "supported_versions");
-  (k "legacy::quic::TransportPacketSent", 1, k "supported_versions")
+  (k "quic::connectivity::ConnectionState", 7, k "closed")
 ]%string.
 
 Lemma p_c20_schema_wf : forallb (fun ns => wf (snd ns)) qevent_types = true.
@@ -37,6 +23,19 @@ Proof. vm_compute. reflexivity. Qed.
 
 Lemma p_c20_schema_defects : defects_of qevent_types = known_defects.
 Proof. vm_compute. reflexivity. Qed.
+
+(* F50 repaired: in every type of the table every skipped field (at any depth) has its skipped value as
+   missing-value, so the clause `skip_ok || negb skipped` of conformsb holds for every value of every field *)
+Lemma p_c20_skips_ok : forallb (fun ns => skips_ok (snd ns)) qevent_types = true.
+Proof. vm_compute. reflexivity. Qed.
+
+Lemma p_c20_skips_ok_in : forall n s, In (n, s) qevent_types -> skips_ok s = true.
+Proof.
+  intros n s H. pose proof p_c20_skips_ok as A. rewrite forallb_forall in A. exact (A (n, s) H).
+Qed.
+
+Lemma p_c20_skip_clause : forall sk d s v, skip_ok sk d s = true -> (skip_ok sk d s || negb (skipped sk v)) = true.
+Proof. intros sk d s v H. rewrite H. reflexivity. Qed.
 
 Lemma p_c20_schema_wf_in : forall n s, In (n, s) qevent_types -> wf s = true.
 Proof.
@@ -123,28 +122,132 @@ Proof.
   destruct g; cbn; auto; contradiction.
 Qed.
 
-(* ------------------------------------------------------------------ the known defect classes, on the model *)
+(* ------------------------------------------------------------------ the defect classes, on the model *)
 Definition rt_fails (s : schema) (v : value) : bool :=
   match de s (ser s v) with Some v' => negb (value_eqb v v') | None => true end.
 
-(* F50: PacketsAcked {} — `packet_nubers` is skipped when empty and has no default *)
+(* F50 (repaired): PacketsAcked {} — `packet_nubers` is skipped when empty; it now has the empty vector as missing-value *)
 Definition w_f50 : value := VStruct [VNone; VSeq []] [] [].
+(* ... a packet_sent event whose supported_versions is empty (every ordinary packet_sent) *)
+Definition w_f50_sent : value :=
+  VStruct [VStruct [VBool true; VEnum 3 VUnit; VSome (VInt 0); VNone; VNone; VNone; VNone; VNone; VNone; VNone; VNone] [] [];
+           VNone; VNone; VSeq []; VNone; VNone; VBool false; VNone] [] [].
+(* the shapes as they were before the repair: the same schemas without the missing-value of the field *)
+Definition PacketsAcked_was : schema := undefault (k "packet_nubers") T_quic_transport_PacketsAcked.
+Definition PacketSent_was : schema := undefault (k "supported_versions") T_quic_transport_PacketSent.
 (* F51: ConnectionState::Granular(Closed) reads back as Base(Closed) *)
 Definition w_f51 : value := VEnum 1 (VEnum 5 VUnit).
-(* F52: ReferenceTime { clock_type: Monotaonic, epoch: default } is refused by its own validator *)
+(* F52 (repaired): ReferenceTime built with clock_type Monotaonic and the default epoch / any epoch other than Unknow *)
 Definition w_f52 : value := VStruct [VEnum 1 VUnit; VEnum 1 (VStr (k "1970-01-01T00:00:00.000Z")); VNone] [] [].
+Definition w_f52_built : value := VStruct [VEnum 1 VUnit; VEnum 0 VUnit; VNone] [] [].
+(* ReferenceTime as it was before the repair: same validator, a builder that stores the epoch it is given *)
+Definition ReferenceTime_was : schema := with_refine 0 T_ReferenceTime.
 (* F53: an Event whose custom field is called `time` *)
 Definition w_f53 : value :=
   VStruct [VFloat 4607182418800017408; VNone; VNone; VNone; VNone; VNone]
           [VEnum 37 (VStruct [VStr (k "m")] [] [])] [(k "time", JStr (k "x"))].
 
+(* the open classes: F51, F53 *)
 Lemma p_c20_refuted :
-  (conformsb T_quic_transport_PacketsAcked w_f50 = false /\ de T_quic_transport_PacketsAcked (ser T_quic_transport_PacketsAcked w_f50) = None)
-  /\ (conformsb T_quic_connectivity_ConnectionState w_f51 = false
+  (conformsb T_quic_connectivity_ConnectionState w_f51 = false
       /\ de T_quic_connectivity_ConnectionState (ser T_quic_connectivity_ConnectionState w_f51) = Some (VEnum 0 (VEnum 3 VUnit)))
-  /\ (conformsb T_ReferenceTime w_f52 = false /\ de T_ReferenceTime (ser T_ReferenceTime w_f52) = None)
   /\ (conformsb event_schema w_f53 = false /\ rt_fails event_schema w_f53 = true
       /\ de event_schema (canon (ser event_schema w_f53)) = None).
+Proof. vm_compute. repeat split. Qed.
+
+(* F50: the former witnesses conform and round-trip; on the shape as it was they do not (names a regression) *)
+Lemma p_c20_f50_repaired :
+  (conformsb T_quic_transport_PacketsAcked w_f50 = true
+   /\ de T_quic_transport_PacketsAcked (ser T_quic_transport_PacketsAcked w_f50) = Some w_f50)
+  /\ (conformsb T_quic_transport_PacketSent w_f50_sent = true
+      /\ de T_quic_transport_PacketSent (ser T_quic_transport_PacketSent w_f50_sent) = Some w_f50_sent).
+Proof. vm_compute. repeat split. Qed.
+
+Lemma p_c20_f50_was_refuted :
+  (wf PacketsAcked_was = true /\ skips_ok PacketsAcked_was = false /\ conformsb PacketsAcked_was w_f50 = false
+   /\ de PacketsAcked_was (ser PacketsAcked_was w_f50) = None)
+  /\ (wf PacketSent_was = true /\ skips_ok PacketSent_was = false /\ conformsb PacketSent_was w_f50_sent = false
+      /\ de PacketSent_was (ser PacketSent_was w_f50_sent) = None).
+Proof. vm_compute. repeat split. Qed.
+
+(* F52: whatever field values the ReferenceTime builder is given, what it builds satisfies the validator ... *)
+Lemma reftime_ok_build_norm : forall v, reftime_ok (build_norm 1 v) = true.
+Proof.
+  intros v. destruct v as [z|z|b|x|l| |v|l|lr lf ex|i p|m]; try reflexivity.
+  destruct lr as [|c lr]; [reflexivity|].
+  destruct c as [z|z|b|x|l| |v|l|lr' lf' ex'|i p|m]; try reflexivity.
+  destruct i as [|[|i]]; try reflexivity.
+  destruct lr as [|e lr]; [reflexivity|].
+  destruct e as [z|z|b|x|l| |v|l|lr' lf' ex'|j q|m]; try reflexivity.
+  destruct j; reflexivity.
+Qed.
+
+(* ... and conforms whenever the field values are of the field types (generic in the struct: replacing the second
+   regular field by a conforming, non-skipped value keeps conformance) *)
+Lemma conf_struct_set_second : forall k1 sk1 d1 s1 k2 sk2 d2 s2 r fl any v1 v2 v2' lr lf ex,
+  conformsb (SStruct (FCons k1 sk1 d1 s1 (FCons k2 sk2 d2 s2 r)) fl any) (VStruct (v1 :: v2 :: lr) lf ex) = true ->
+  conformsb s2 v2' = true -> skipped sk2 v2' = false ->
+  conformsb (SStruct (FCons k1 sk1 d1 s1 (FCons k2 sk2 d2 s2 r)) fl any) (VStruct (v1 :: v2' :: lr) lf ex) = true.
+Proof.
+  intros k1 sk1 d1 s1 k2 sk2 d2 s2 r fl any v1 v2 v2' lr lf ex C C2 S2.
+  cbn [conformsb conf_fields] in C |- *.
+  apply andb_true_iff in C. destruct C as [C X5]. apply andb_true_iff in C. destruct C as [C X4].
+  apply andb_true_iff in C. destruct C as [C X3]. apply andb_true_iff in C. destruct C as [C X2].
+  apply andb_true_iff in C. destruct C as [C Y]. apply andb_true_iff in Y. destruct Y as [Y Y3].
+  rewrite C, C2, S2, Y3, X2, X3, X4, X5. cbn [negb]. rewrite orb_true_r. reflexivity.
+Qed.
+
+Definition ReferenceTime_fields : schema :=
+  match T_ReferenceTime with SNamed _ (SRefine _ s) => s | s => s end.
+
+Lemma p_c20_reference_time_builder : forall v, conformsb ReferenceTime_fields v = true ->
+  conformsb T_ReferenceTime (build T_ReferenceTime v) = true
+  /\ de T_ReferenceTime (ser T_ReferenceTime (build T_ReferenceTime v)) = Some (build T_ReferenceTime v).
+Proof.
+  intros v C.
+  assert (B : build T_ReferenceTime v = build_norm 1 v).
+  { unfold ReferenceTime_fields in C. cbn [T_ReferenceTime] in C.
+    destruct v as [z|z|b|x|l| |v|l|lr lf ex|i p|m]; try (cbn in C; discriminate).
+    destruct lr as [|c [|e [|w [|y lr]]]]; try (cbn in C; discriminate); try (exfalso; cbn in C; repeat (rewrite ?andb_false_r in C; cbn in C); discriminate).
+    assert (Hc : build T_TimeClockType c = c).
+    { destruct c as [z|z|b|x|l| |v|l|lr' lf' ex'|i p|m]; try reflexivity. destruct i as [|[|[|i]]]; reflexivity. }
+    assert (He : build T_TimeEpoch e = e).
+    { destruct e as [z|z|b|x|l| |v|l|lr' lf' ex'|i p|m]; try reflexivity. destruct i as [|[|i]]; reflexivity. }
+    assert (Hw : build (SOpt T_RFC3339DateTime) w = w).
+    { destruct w as [z|z|b|x|l| |v|l|lr' lf' ex'|i p|m]; reflexivity. }
+    change (build T_ReferenceTime (VStruct [c; e; w] lf ex))
+      with (build_norm 1 (VStruct [build T_TimeClockType c; build T_TimeEpoch e; build (SOpt T_RFC3339DateTime) w] lf ex)).
+    rewrite Hc, He, Hw. reflexivity. }
+  rewrite B.
+  assert (CC : conformsb T_ReferenceTime (build_norm 1 v) = true).
+  { change (conformsb T_ReferenceTime (build_norm 1 v))
+      with (conformsb ReferenceTime_fields (build_norm 1 v) && reftime_ok (build_norm 1 v)).
+    rewrite reftime_ok_build_norm, andb_true_r.
+    unfold build_norm.
+    destruct v as [z|z|b|x|l| |v|l|lr lf ex|i p|m]; try exact C.
+    destruct lr as [|c lr]; [exact C|].
+    destruct c as [z|z|b|x|l| |v|l|lr' lf' ex'|i p|m]; try exact C.
+    destruct i as [|[|i]]; try exact C.
+    destruct lr as [|e lr]; [exact C|].
+    destruct e as [z|z|b|x|l| |v|l|lr' lf' ex'|j q|m]; try exact C.
+    destruct j; [exact C|].
+    unfold ReferenceTime_fields in C |- *. cbn [T_ReferenceTime] in C |- *.
+    eapply conf_struct_set_second; [exact C| vm_compute; reflexivity | reflexivity]. }
+  split; [exact CC|].
+  apply p_c20_roundtrip; [vm_compute; reflexivity | exact CC].
+Qed.
+
+(* the former witness: built, it is the monotonic clock with epoch Unknow and round-trips; with the builder as it
+   was (number 0: stores the epoch it is given) the built value is refused by the type's own validator *)
+Lemma p_c20_f52_repaired :
+  conformsb ReferenceTime_fields w_f52 = true /\ build T_ReferenceTime w_f52 = w_f52_built
+  /\ de T_ReferenceTime (ser T_ReferenceTime (build T_ReferenceTime w_f52)) = Some w_f52_built.
+Proof. vm_compute. repeat split. Qed.
+
+Lemma p_c20_f52_was_refuted :
+  wf ReferenceTime_was = true /\ build ReferenceTime_was w_f52 = w_f52
+  /\ conformsb ReferenceTime_was (build ReferenceTime_was w_f52) = false
+  /\ de ReferenceTime_was (ser ReferenceTime_was (build ReferenceTime_was w_f52)) = None.
 Proof. vm_compute. repeat split. Qed.
 
 (* non-vacuity: a packet_sent Event with header, three frames, versions, custom field *)
